@@ -34,7 +34,9 @@ def extra_scenarios(tier):
     q = tier == 'quick'
     return [('unread_r2', c08.consts(4, ['equal', 'unreadable', 'hangs'], 2, [4]), 120 if q else 5000),
             ('unread_r3', c08.consts(4 if q else 5, ['equal', 'unreadable', 'exits'], 3, [4 if q else 5]), 120 if q else 5000),
-            ('unread_r1', c08.consts(3, ['equal', 'unreadable', 'late'], 1, [3]), 60 if q else 2000)]
+            ('unread_r1', c08.consts(3, ['equal', 'unreadable', 'late'], 1, [3]), 60 if q else 2000),
+            # ... or answers (False, text) because it could not describe the failure: the task counts towards its age
+            ('report_r2', c08.consts(4 if q else 5, ['equal', 'reportRaises', 'hangs'], 2, [4 if q else 5]), 100 if q else 3000)]
 
 
 def run(rep, tier, seed):
